@@ -154,7 +154,10 @@ impl DiskRowset {
                     let mut first_key: &[u8] = &index.first_key;
                     let first_val: i32 = PrimitiveFixedWidthEncode::decode(&mut first_key);
 
-                    if first_val > begin_val {
+                    // Stop at the first block that starts at or after the key: with equal keys
+                    // in a row-set (uniqueness is not enforced), rows with the begin key can
+                    // also sit at the end of the block before the one that starts with it.
+                    if first_val >= begin_val {
                         break;
                     }
                     pre_block_first_key = index.first_rowid;
